@@ -1014,22 +1014,32 @@ def r_execute_optional(ctx: Ctx, rule="R03.6"):
     g = ctx.an.cfg(f)
     params = f.param_names()
     fn, pa, pk = params[0], params[1], params[2]
-    ucalls = ctx.nodes(f, lambda n: n.op == "call" and n.callee is not None and n.callee.kind == "user" and isinstance(n.ast.func, ast.Name) and n.ast.func.id == fn)
-    rep.floor(rule, "calls of the optional function", len(ctx.distinct_sites(ucalls)), 1)
-
     V = ctx.vals
 
-    def mentions(e: ast.AST, name: str) -> bool:
-        # the test itself, or the once-bound local flag it reads (`must_await = iscoroutinefunction(function)`)
+    def is_root_param(n: Node, e: ast.AST, pname: str) -> bool:
+        """e, evaluated at step n (possibly inside a helper spliced into f), is f's never re-bound parameter pname"""
+        fr, env, leaf = V.trace(n.func, n.env, e)
+        return fr is f and not env and V.is_param(f, leaf, pname)
+
+    ucalls = ctx.nodes(f, lambda n: n.op == "call" and n.callee is not None and n.callee.kind == "user" and is_root_param(n, n.ast.func, fn))
+    rep.floor(rule, "calls of the optional function", len(ctx.distinct_sites(ucalls)), 1)
+
+    def mentions(t: Node, name: str) -> bool:
+        # the test itself, or the flag it reads (`must_await = iscoroutinefunction(function)`, also when a helper spliced in
+        # computes it and hands it back as a component of its result)
+        e = t.ast
         inner = e.operand if isinstance(e, ast.UnaryOp) and isinstance(e.op, ast.Not) else e
-        inner = V.resolve(f, inner)
-        return any(isinstance(c, ast.Call) and isinstance(c.func, ast.Name) and c.func.id == name and c.args and V.is_param(f, c.args[0], fn)
-                   for c in ast.walk(inner))
+        fr, env, leaf = V.trace(t.func, t.env, inner)
+
+        from types import SimpleNamespace
+        _At = SimpleNamespace(func=fr, env=env)  # a step-like handle for the frame the leaf lives in
+        return any(isinstance(c, ast.Call) and isinstance(c.func, ast.Name) and c.func.id == name and c.args and is_root_param(_At, c.args[0], fn)
+                   for c in ast.walk(leaf))
 
     def guard_branch(name: str, want: bool):
         """Edge filter keeping only the branch on which `name(function)` is `want`."""
         def ef(a: Node, b: Node, lab: Label) -> bool:
-            if a.op == "test" and lab[0] in ("T", "F") and mentions(a.ast, name):
+            if a.op == "test" and lab[0] in ("T", "F") and mentions(a, name):
                 neg = isinstance(a.ast, ast.UnaryOp) and isinstance(a.ast.op, ast.Not)
                 return (lab[0] == "T") == (want != neg)
             return True
@@ -1043,16 +1053,16 @@ def r_execute_optional(ctx: Ctx, rule="R03.6"):
            construct="paths with callable(function)", detail=f"call counts on normal return: {sorted(ret)}")
     for u in ctx.distinct_sites(ucalls):
         c: ast.Call = u.ast
-        fwd_pos = len(c.args) == 1 and isinstance(c.args[0], ast.Starred) and V.is_param(f, c.args[0].value, pa)
+        fwd_pos = len(c.args) == 1 and isinstance(c.args[0], ast.Starred) and is_root_param(u, c.args[0].value, pa)
         fwd_kw = False
         if len(c.keywords) == 1 and c.keywords[0].arg is None:
             # `kwargs`, or the local standing for `{} if kwargs is None else kwargs`
-            leaves = V.alts(f, c.keywords[0].value)
-            fwd_kw = any(isinstance(x, ast.Name) and x.id == pk for x in leaves) and \
-                all((isinstance(x, ast.Name) and x.id == pk) or (isinstance(x, ast.Dict) and not x.keys) for x in leaves)
+            leaves = V.leaves(u.func, u.env, c.keywords[0].value)
+            is_pk = lambda x: x[0] is f and not x[1] and isinstance(x[2], ast.Name) and x[2].id == pk
+            fwd_kw = any(is_pk(x) for x in leaves) and all(is_pk(x) or (isinstance(x[2], ast.Dict) and not x[2].keys) for x in leaves)
         rep.ob(rule, "the function is called with exactly *args, **kwargs", fwd_pos and fwd_kw, node=u)
     # awaited under the coroutine-function guard
-    tests = ctx.nodes(f, lambda n: n.op == "test" and mentions(n.ast, "iscoroutinefunction"))
+    tests = ctx.nodes(f, lambda n: n.op == "test" and mentions(n, "iscoroutinefunction"))
     if not tests:
         rep.ob(rule, "coroutine functions are recognised (iscoroutinefunction guard)", None, func=f, construct="(no iscoroutinefunction test)")
         return
@@ -1065,7 +1075,7 @@ def r_execute_optional(ctx: Ctx, rule="R03.6"):
     rep.ob(rule, "the coroutine-function branch calls the function", bool(live_calls), node=tests[0])
     for u in ctx.distinct_sites(live_calls):
         copies = [x for x in live_calls if x.ast is u.ast]
-        awaits = {m for m in g.nodes if m.op == "await" and V.resolve(f, m.ast.value) is u.ast}
+        awaits = {m for m in g.nodes if m.op == "await" and V.trace(m.func, m.env, m.ast.value)[2] is u.ast}
         # with iscoroutinefunction(function) true, every way from the call to a normal return awaits its result
         escaped = g.exit in reach(copies, both, avoid=awaits)
         rep.ob(rule, "under the coroutine-function guard the call is awaited (the callback runs to completion)", bool(awaits) and not escaped, node=u)
